@@ -134,9 +134,13 @@ func (p *Path) tryIfConvert(f *Frame, c *Term) (done bool) {
 	}
 	p.pure = true
 	saveSteps := p.steps
+	saveBlock, savePrev, savePC := f.block, f.prev, f.pc
 	defer func() {
 		p.pure = false
 		if e := recover(); e != nil {
+			// an abort can strike in the middle of a speculatively executed block:
+			// put the frame back to the branch instruction
+			f.block, f.prev, f.pc = saveBlock, savePrev, savePC
 			if _, ok := e.(impureAbort); ok {
 				done = false
 				p.steps = saveSteps
